@@ -205,6 +205,9 @@ func (h *H) Await(ch chan bool) {
 }
 func (h *H) HeldLocks() int { return 0 }
 
+// ArmedTimers is the number of timers currently armed (engine only).
+func (h *H) ArmedTimers() int { return 0 }
+
 // NegativeTimerDelay reports whether some timer was armed (time.NewTimer, Timer.Reset) with a
 // negative delay on this run (engine only).
 func (h *H) NegativeTimerDelay() bool { return false }
